@@ -147,7 +147,10 @@ func (ex *Exec) Report(cfg *PropConfig, tier string, seed int, reps []*FuncRepor
 		fmt.Println(l)
 	}
 	wall := time.Since(start).Seconds()
-	broken := len(vacuous) > 0 || len(ex.errs) > 0 || (total == 0)
+	for _, d := range stats.Disagreements {
+		fmt.Printf("ENGINE-ERROR: SOLVER DISAGREEMENT on a discharged obligation: %s\n", d)
+	}
+	broken := len(vacuous) > 0 || len(ex.errs) > 0 || (total == 0) || len(stats.Disagreements) > 0
 	if total < cfg.MinObl && !partial {
 		fmt.Printf("ENGINE-ERROR: only %d obligations generated, expected at least %d (functions under contract missing?)\n", total, cfg.MinObl)
 		broken = true
@@ -230,6 +233,7 @@ func (ex *Exec) writeEvidence(cfg *PropConfig, tier string, seed int, reps []*Fu
 		"known_findings_matched":   knownMatched,
 		"samples":                  samples,
 		"bounded_assumption_checks": axLines,
+		"solver_agreement":          agreement(stats),
 		"undecided_clauses":        cfg.Undecided,
 		"load_seconds":             round2(loadS),
 		"generation_seconds":       round2(genS),
@@ -257,4 +261,21 @@ func roundMap(m map[string]float64) map[string]float64 {
 		r[k] = round2(v)
 	}
 	return r
+}
+
+// agreement: thorough tier - every discharged obligation is also given to the solvers that lost the race
+// (10 s each); the map says how many obligations were proved by 1, 2 or 3 solvers independently.
+func agreement(stats *SolveStats) interface{} {
+	if stats.ProvedBy == nil {
+		return "not run in this tier (thorough only)"
+	}
+	m := map[string]interface{}{}
+	for k, v := range stats.ProvedBy {
+		m[fmt.Sprintf("proved_by_%d_solvers", k)] = v
+	}
+	m["disagreements"] = stats.Disagreements
+	if stats.Disagreements == nil {
+		m["disagreements"] = []string{}
+	}
+	return m
 }
